@@ -106,3 +106,9 @@ def run(rep: Report):
         si.samples = [{"family": k, **{x: v[x] for x in ("work_n", "work_2n", "ratio", "sample")}} for k, v in list(d["families"].items())[:4]]
     si.seconds = time.time() - t0
     rep.standins.append(si)
+    # replay of refuted memo obligations: a size-parameterised family that actually multiplies on the real code
+    fresh = [fl for fl in si.failures if rep._standin_known(fl) is None]
+    for ob in rep.obligations:
+        if ob.status == "failed" and ob.kind == "memo-discipline" and fresh:
+            ob.replay = {"reproduced": True, "how": "harness/work_measure.py on the working tree", "family": fresh[0]["input"],
+                         "observed": fresh[0]["observed"]}
